@@ -405,11 +405,11 @@ def _db_ceil_expr(dbmodel, expression):
 
 
 def _db_int_divide_expr(dbmodel, expression):
-    # the divisor as a float: SQL's / between two integers has already truncated towards zero, -7 / 2 = -3
-    # (a CAST, not a multiplication by 1.0, which is a DECIMAL in some dialects)
-    e0 = dbmodel.expr_to_sql(expression.args[0], want_inline_parens=True)
-    e1 = dbmodel.expr_to_sql(expression.args[1], want_inline_parens=False)
-    return f"FLOOR({e0} / CAST({e1} AS {dbmodel.float_type}))"
+    # example of a derived expression
+    # (the dialect's float division %/%, with its zero-divisor handling: SQL's / between two integers has already
+    # truncated towards zero, -7 / 2 = -3)
+    ratio = (expression.args[0].float_divide(expression.args[1])).floor()
+    return dbmodel.expr_to_sql(ratio, want_inline_parens=False)
 
 
 def _db_float_divide_expr(dbmodel, expression):
